@@ -228,6 +228,25 @@ MALFORMED = [None, True, 5, b"patch", {}, {b"op": b"add"}, [None], [1], [b"x"], 
              [{b"op": b"test", b"path": b"", b"value": None}, {b"op": None}], [{b"op": b"copy", b"from": 1.5, b"path": b"/q"}]]
 
 
+def scramble_model(v, ctr):
+    """what the driver's SCRAMBLE makes of a tree in which no node is shared"""
+    if isinstance(v, list):
+        return [scramble_model(x, ctr) for x in v]
+    if isinstance(v, dict):
+        return {k: scramble_model(x, ctr) for k, x in v.items()}
+    if v is None:
+        return None
+    n = 1000 + ctr[0]
+    ctr[0] += 1
+    if isinstance(v, bool):
+        return bool(n & 1)
+    if isinstance(v, int):
+        return n
+    if isinstance(v, float):
+        return 0.5 + n
+    return b"scrambled-by-the-driver-%d------------------" % n
+
+
 def mutate_patch(rng, patch):
     """well-formed patch with one field damaged"""
     patch = copy.deepcopy(patch)
@@ -315,9 +334,9 @@ def shard_fn(shard, nshards, seed, tier, exe, nconf, nrob):
         cmds = ["P 0 64 1 x%s 0" % dt.hex()] + hist + ["P 0 64 1 x%s 1" % pt.hex(), "D 1"]
         # afterwards every scalar of the RESULT is changed in place: neither the patch nor (copy_from mode) the source document may notice
         if mode == 0:
-            cmds += ["PATCH 0 1 0", "D 0", "D 1", "SCRAMBLE 0", "D 1", "PUT 0", "PUT 1"]
+            cmds += ["PATCH 0 1 0", "D 0", "D 1", "SCRAMBLE 0", "D 1", "D 0", "PUT 0", "PUT 1"]
         else:
-            cmds += ["PATCH 0 1 1 2", "D 2", "D 1", "D 0", "SCRAMBLE 2", "D 1", "D 0", "PUT 0", "PUT 1", "PUT 2"]
+            cmds += ["PATCH 0 1 1 2", "D 2", "D 1", "D 0", "SCRAMBLE 2", "D 1", "D 0", "D 2", "PUT 0", "PUT 1", "PUT 2"]
         cases.append((cid, cmds))
         meta[cid] = (doc, patch, mode, kind, len(hist))
 
@@ -418,6 +437,12 @@ def shard_fn(shard, nshards, seed, tier, exe, nconf, nrob):
                 key, what = "result-shares-nodes-with-patch", "changing the scalars of the patched document through the setters changed the patch document: %s -> %s" % (pdump_before[:150], after[:150])
             elif mode == 1 and lines[9][2:] != refjson.dump(doc):
                 key, what = "result-shares-nodes-with-source", "changing the scalars of the result changed the copy_from document"
+            elif want is not None:
+                # every scalar of the result got its own running number: a node that sits at two places of the result (copied by reference) shows up as a repeated number
+                got_scr = (lines[8] if mode == 0 else lines[10])[2:]
+                exp_scr = refjson.dump(scramble_model(copy.deepcopy(want), [0]))
+                if got_scr != exp_scr:
+                    key, what = "result-shares-nodes-within-itself", "after giving every scalar of the result its own value the tree is %s, expected %s" % (got_scr[:160], exp_scr[:160])
             sh.count("results_scrambled_afterwards")
         if not key and lines[-1].split()[1] != "live=0":
             key, what = "leak", "blocks left after releasing document, patch and result: " + lines[-1]
